@@ -62,6 +62,48 @@ example : transactCtx envOk { begin := true, commit := true, rollback := true }
 example : (transactCtx envOk { begin := true, commit := true, rollback := true, badConn := 2 }
     { stmts := [], fin := .ok }).log = [.beginBad, .beginBad, .begin true, .commit true] := by decide
 
+/-- **At most one transaction is ever opened**, however often the driver answers Begin with
+driver.ErrBadConn: go-zero calls `db.Begin()` once; inside it database/sql makes at most `maxBeginAttempts`
+attempts, each refused one on a connection it discards, and at most one of them opens a transaction — exactly
+when `opened`. -/
+theorem begins_at_most_one_transaction (env : Env) (f : Faults) (b : Body) :
+    count isBeginOk (transactCtx env f b).log = (if opened env f then 1 else 0) ∧
+    count isBegin (transactCtx env f b).log ≤ 1 ∧
+    count isBeginBad (transactCtx env f b).log ≤ maxBeginAttempts := by
+  have hall := runBody_all b
+  have h0 := filter_nil_of_all stmt_not_beginOk _ hall
+  have h1 := filter_nil_of_all stmt_not_begin _ hall
+  have h2 := filter_nil_of_all (p := isBeginBad) (q := isStmt) (by intro e; cases e <;> simp) _ hall
+  have hnb : isBegin (endEvent f b) = false := by unfold endEvent; split <;> rfl
+  have hno : isBeginOk (endEvent f b) = false := by unfold endEvent; split <;> rfl
+  have hnd : isBeginBad (endEvent f b) = false := by unfold endEvent; split <;> rfl
+  rw [log_shape_ctx]
+  cases ho : opened env f
+  · cases env.admitted <;> simp [count, refusedBegins]
+    unfold Faults.givesUp maxBeginAttempts
+    split
+    · decide
+    · rename_i hg
+      simp only [decide_eq_true_eq] at hg
+      refine ⟨?_, ?_, ?_⟩
+      · intro a ha
+        rcases mem_badPrefix_or _ _ _ ha with rfl | h
+        · rfl
+        · simp at h; subst h; rfl
+      · rw [filter_badPrefix isBegin rfl]; simp [List.filter_cons]
+      · rw [count_bad_badPrefix]; simp; omega
+  · have hg : f.badConn < maxBeginAttempts := by
+      have := (opened_iff env f).mp ho
+      simpa [Faults.givesUp] using this.2.2.2.1
+    simp [count, filter_badPrefix isBeginOk rfl, filter_badPrefix isBegin rfl, count_bad_badPrefix,
+      List.filter_cons, List.filter_append, h0, h1, h2, hnb, hno, hnd]
+    omega
+
+example : (transactCtx envOk { begin := false, commit := true, rollback := true, badConn := 2 }
+    { stmts := [⟨.exec, false, true⟩], fin := .ok }) =
+    { log := [.beginBad, .beginBad, .begin false], runs := 0, body := .notRun, ret := some (Err.of .begin),
+      mark := some false } := by decide
+
 /-- **The body is not run if the transaction cannot begin** (and runs exactly once if it can). -/
 theorem body_runs_iff_begun (env : Env) (f : Faults) (b : Body) :
     (transactCtx env f b).runs = (if opened env f then 1 else 0) ∧
